@@ -14,7 +14,7 @@ PROPS = {
     "C02": {
         "coq": "Properties/C02.v",
         "coq_extra": ["Properties/C02src.v"],
-        "pinchecks": ["PinChecks/PcEffector.v", "PinChecks/PcEffectorGen.v"] + ["PinChecks/PcBody_enf.v", "PinChecks/PcEnforceGen.v", "PinChecks/PcEnforcerGen.v", "PinChecks/PcBody_fmacros.v"],
+        "pinchecks": ["PinChecks/PcEffector.v", "PinChecks/PcEffectorGen.v"] + ["PinChecks/PcEnforcer2Gen.v", "PinChecks/PcEnforceGen.v", "PinChecks/PcEnforcerGen.v", "PinChecks/PcBody_fmacros.v"],
         "gen": "c02",
         "level_text": "Coq theorems (c02_result, c02_early_final, c02_cap_complete, c02_next_readable, c02_forced_*) prove for every "
                       "effect rule and every finite sequence (unbounded length) that the streaming combiner equals the declarative "
@@ -57,8 +57,8 @@ PROPS = {
     "C01": {
         "coq": "Properties/C01.v",
         "coq_extra": ["Properties/C16e.v", "Properties/C01src.v"],
-        "pinchecks": ["PinChecks/PcBody_enf.v", "PinChecks/PcEnforceGen.v", "PinChecks/PcEnforcerGen.v", "PinChecks/PcLiterals.v", "PinChecks/PcBody_fmacros.v", "PinChecks/PcEffector.v", "PinChecks/PcEffectorGen.v",
-                      "PinChecks/PcBody_fconvert.v", "PinChecks/PcBody_util.v", "PinChecks/PcStrFnGen.v"] + ["PinChecks/PcBody_model.v", "PinChecks/PcStoreGen.v", "PinChecks/PcLinksGen.v", "PinChecks/PcRoleGraph.v", "PinChecks/PcRoleManagerGen.v"],
+        "pinchecks": ["PinChecks/PcEnforcer2Gen.v", "PinChecks/PcEnforceGen.v", "PinChecks/PcEnforcerGen.v", "PinChecks/PcLiterals.v", "PinChecks/PcBody_fmacros.v", "PinChecks/PcEffector.v", "PinChecks/PcEffectorGen.v",
+                      "PinChecks/PcBody_fconvert.v", "PinChecks/PcBody_util.v", "PinChecks/PcRegexGen.v", "PinChecks/PcRegexFmGen.v", "PinChecks/PcStrFnGen.v"] + ["PinChecks/PcBody_model.v", "PinChecks/PcStoreGen.v", "PinChecks/PcLinksGen.v", "PinChecks/PcRoleGraph.v", "PinChecks/PcRoleManagerGen.v"],
         "gen": "c01",
         "level_text": "Coq theorem c01_enforce_is_perm: for EVERY model store, matcher AST, function table, request (any arity/types), "
                       "effect rule and flag the enforcement loop of the model equals the PERM reference (per-rule outcomes in stored order, "
@@ -81,7 +81,7 @@ PROPS = {
     "C17": {
         "coq": "Properties/C17.v",
         "coq_extra": ["Properties/C17src.v"],
-        "pinchecks": ["PinChecks/PcBody_enf.v", "PinChecks/PcEnforceGen.v", "PinChecks/PcEnforcerGen.v", "PinChecks/PcLiterals.v"],
+        "pinchecks": ["PinChecks/PcEnforcer2Gen.v", "PinChecks/PcEnforceGen.v", "PinChecks/PcEnforcerGen.v", "PinChecks/PcLiterals.v"],
         "gen": "c17",
         "level_text": "Coq theorem c17_ctx_eq_plain: for every suffix, every model whose suffixed r/p/e/m definitions are renamed copies "
                       "(same rules under the suffixed policy type), every function state and every request, the context-qualified loop equals "
@@ -96,7 +96,7 @@ PROPS = {
 }
 
 
-ENGINE_PINS = ["PinChecks/PcBody_enf.v", "PinChecks/PcEnforceGen.v", "PinChecks/PcEnforcerGen.v", "PinChecks/PcBody_model.v", "PinChecks/PcStoreGen.v", "PinChecks/PcLinksGen.v", "PinChecks/PcInternalGen.v", "PinChecks/PcBody_adapters.v", "PinChecks/PcAdaptersGen.v", "PinChecks/PcBody_fmgmtapi.v", "PinChecks/PcApiGen.v", "PinChecks/PcQueryGen.v", "PinChecks/PcBody_frbacapi.v", "PinChecks/PcRoleGraph.v", "PinChecks/PcRoleManagerGen.v", "PinChecks/PcLiterals.v", "PinChecks/PcBody_fmacros.v"]
+ENGINE_PINS = ["PinChecks/PcEnforcer2Gen.v", "PinChecks/PcEnforceGen.v", "PinChecks/PcEnforcerGen.v", "PinChecks/PcBody_model.v", "PinChecks/PcStoreGen.v", "PinChecks/PcLinksGen.v", "PinChecks/PcInternalGen.v", "PinChecks/PcBody_adapters.v", "PinChecks/PcAdaptersGen.v", "PinChecks/PcBody_fmgmtapi.v", "PinChecks/PcApiGen.v", "PinChecks/PcQueryGen.v", "PinChecks/PcBody_frbacapi.v", "PinChecks/PcRoleGraph.v", "PinChecks/PcRoleManagerGen.v", "PinChecks/PcLiterals.v", "PinChecks/PcBody_fmacros.v"]
 ENGINE_NOTE = ("trusted: Coq kernel, extraction, harness; modelled not verified: hashlink LinkedHashSet/LinkedHashMap order (insert moves an existing entry "
                "to the back), petgraph adjacency order, rhai on the matcher fragment; adapters are modelled at the level of parsed lines (the CSV text level is "
                "C16/C09-text); every modelled function body is pinned by hash to the source it was aligned with")
@@ -104,7 +104,7 @@ ENGINE_NOTE = ("trusted: Coq kernel, extraction, harness; modelled not verified:
 PROPS.update({
     "C06": {
         "coq": "Properties/C06.v",
-        "pinchecks": ["PinChecks/PcBody_enf.v", "PinChecks/PcEnforceGen.v", "PinChecks/PcEnforcerGen.v", "PinChecks/PcBody_fmap.v", "PinChecks/PcStrFnGen.v", "PinChecks/PcLiterals.v", "PinChecks/PcEffector.v", "PinChecks/PcEffectorGen.v", "PinChecks/PcBody_fconvert.v",
+        "pinchecks": ["PinChecks/PcEnforcer2Gen.v", "PinChecks/PcEnforceGen.v", "PinChecks/PcEnforcerGen.v", "PinChecks/PcBody_fmap.v", "PinChecks/PcStrFnGen.v", "PinChecks/PcLiterals.v", "PinChecks/PcEffector.v", "PinChecks/PcEffectorGen.v", "PinChecks/PcBody_fconvert.v",
                       "PinChecks/PcBody_fmacros.v", "PinChecks/PcRoleGraph.v", "PinChecks/PcRoleManagerGen.v"] + ["PinChecks/PcBody_ferror.v"],
         "gen": "c06",
         "partial": "never-hang / never-panic of the regex crate and of rhai is NOT a theorem: it is watchdog + catch_unwind evidence from the differential run; "
@@ -121,6 +121,7 @@ PROPS.update({
     },
     "C15": {
         "coq": "Properties/C15.v",
+        "coq_extra": ["Properties/RegexFmGen.v"],
         "pinchecks": ["PinChecks/PcBody_fmap.v", "PinChecks/PcStrFnGen.v", "PinChecks/PcLiterals.v"],
         "gen": "c15",
         "level_text": "Coq theorems: c15_key_match / c15_key_get* characterise keyMatch/keyGet for ALL byte strings; for every pattern of the documented grammar "
@@ -170,7 +171,7 @@ PROPS.update({
     "C09": {
         "coq": "Properties/C09.v",
         "coq_extra": ["Properties/C09text.v", "Properties/C16q.v"],
-        "pinchecks": ENGINE_PINS + ["PinChecks/PcBody_util.v", "PinChecks/PcStrFnGen.v"],
+        "pinchecks": ENGINE_PINS + ["PinChecks/PcBody_util.v", "PinChecks/PcRegexGen.v", "PinChecks/PcRegexFmGen.v", "PinChecks/PcStrFnGen.v"],
         "gen": "c09",
         "level_text": "Coq theorems: AdapterSync (MemoryAdapter lines = in-memory policy, rule for rule, same order) holds after construction and is preserved by "
                       "EVERY management call with auto-save on - accepted, duplicate, refused, failed, late role-link error, panic (c09_step, c09_history, "
@@ -326,7 +327,7 @@ PROPS.update({
 PROPS.update({
     "C20": {
         "coq": "Properties/C20.v",
-        "pinchecks": ["PinChecks/PcLocks.v", "PinChecks/PcBody_fmacros.v", "PinChecks/PcBody_frbacapi.v", "PinChecks/PcBody_enf.v", "PinChecks/PcEnforceGen.v", "PinChecks/PcEnforcerGen.v", "PinChecks/PcBody_fcachedenforcer.v", "PinChecks/PcCachedGen.v"] + ["PinChecks/PcBody_fdefaultcache.v", "PinChecks/PcCached.v", "PinChecks/PcRoleGraph.v", "PinChecks/PcRoleManagerGen.v"],
+        "pinchecks": ["PinChecks/PcLocks.v", "PinChecks/PcBody_fmacros.v", "PinChecks/PcBody_frbacapi.v", "PinChecks/PcEnforcer2Gen.v", "PinChecks/PcEnforceGen.v", "PinChecks/PcEnforcerGen.v", "PinChecks/PcBody_fcachedenforcer.v", "PinChecks/PcCachedGen.v"] + ["PinChecks/PcBody_fdefaultcache.v", "PinChecks/PcCached.v", "PinChecks/PcRoleGraph.v", "PinChecks/PcRoleManagerGen.v"],
         "gen": "c20",
         "partial": "PARTIAL by nature: the theorems are about an abstract small-step semantics of two writer-preferring, non-re-entrant read-write locks and the "
                    "thread programs the code follows; that rustc / parking_lot / mini-moka / rhai implement those semantics (memory model, fairness, Send/Sync "
@@ -347,8 +348,8 @@ PROPS.update({
 PROPS.update({
     "C16": {
         "coq": "Properties/C16.v",
-        "coq_extra": ["Properties/C16q.v", "Properties/C09text.v", "Properties/C16e.v"],
-        "pinchecks": ["PinChecks/PcBody_util.v", "PinChecks/PcStrFnGen.v", "PinChecks/PcBody_model.v", "PinChecks/PcStoreGen.v", "PinChecks/PcLinksGen.v", "PinChecks/PcBody_adapters.v", "PinChecks/PcAdaptersGen.v", "PinChecks/PcLiterals.v"] + ["PinChecks/PcBody_ffrontend.v"],
+        "coq_extra": ["Properties/C16q.v", "Properties/C09text.v", "Properties/C16e.v", "Properties/RegexGen.v"],
+        "pinchecks": ["PinChecks/PcBody_util.v", "PinChecks/PcRegexGen.v", "PinChecks/PcRegexFmGen.v", "PinChecks/PcStrFnGen.v", "PinChecks/PcBody_model.v", "PinChecks/PcStoreGen.v", "PinChecks/PcLinksGen.v", "PinChecks/PcBody_adapters.v", "PinChecks/PcAdaptersGen.v", "PinChecks/PcLiterals.v"] + ["PinChecks/PcBody_ffrontend.v"],
         "gen": "c16",
         "level_text": "Coq theorems at BYTE level over Model/Csv.v and Model/Ini.v (validated against the real functions through the cfg(casbin_verif) hooks): "
                       "c16_parse_render_row (every csv-safe row under every spacing/quoting layout parses back, scanner fuel proved adequate), file level with "
